@@ -365,9 +365,49 @@ func (fr *FuncRun) applyContract(f *Frame, st *State, fc *FuncContract, callee *
 		fr.assertOb(st, "pre", fmt.Sprintf("%s:%d", name, i+1), t, pos, "precondition of "+fc.Name+": "+r.Text)
 	}
 	// frame
-	for _, m := range fc.Modifies {
-		for _, h := range fr.modifiesHeaps(ctx, m) {
-			fr.heapHavoc(st, h)
+	{
+		wholeH := map[string]bool{}
+		objs := map[string][]string{}
+		var order []string
+		for _, m := range fc.Modifies {
+			for _, t := range fr.modifiesTargets(ctx, m) {
+				if _, seen := objs[t.heap]; !seen && !wholeH[t.heap] {
+					order = append(order, t.heap)
+				}
+				if t.addr == "" {
+					wholeH[t.heap] = true
+				} else {
+					objs[t.heap] = append(objs[t.heap], t.addr)
+				}
+			}
+		}
+		for _, h := range order {
+			if wholeH[h] {
+				fr.heapHavoc(st, h)
+				continue
+			}
+			// only the named objects may change
+			cur := fr.heapCur(st, h)
+			hs := fr.w.heapSorts[h]
+			es := strings.TrimSuffix(strings.TrimPrefix(hs, "(Array Int "), ")")
+			for _, a := range objs[h] {
+				nv := fr.fresh(es, "mod")
+				if info, ok := fr.w.heapElem[h]; ok && info.levels == 1 {
+					fr.rangeAssume(st, nv, info.t)
+					fr.existingRefTerm(nv, info.t)
+				}
+				cur = sto(cur, a, nv)
+			}
+			allFresh := true
+			for _, a := range objs[h] {
+				if !fr.termIsFresh(a) {
+					allFresh = false
+				}
+			}
+			savedFresh := fr.curWriteFresh
+			fr.curWriteFresh = allFresh
+			fr.heapSet(st, h, cur)
+			fr.curWriteFresh = savedFresh
 		}
 	}
 	if callee != nil && !fc.Extern {
@@ -411,8 +451,82 @@ func (fr *FuncRun) applyContract(f *Frame, st *State, fc *FuncContract, callee *
 	return rv
 }
 
+// termIsFresh: the address term is an object allocated in this run (or an inline field of one).
+func (fr *FuncRun) termIsFresh(a string) bool {
+	if fr.freshRefs[a] {
+		return true
+	}
+	if strings.HasPrefix(a, "(faddr_") {
+		i := strings.Index(a, " ")
+		return fr.termIsFresh(strings.TrimSuffix(a[i+1:], ")"))
+	}
+	return false
+}
+
+type modTarget struct {
+	heap string
+	addr string // "" = the whole heap (contents(...) and heap: entries)
+}
+
 // modifiesHeaps maps a modifies entry to heap names.
 func (fr *FuncRun) modifiesHeaps(ctx *EvalCtx, m string) []string {
+	var hs []string
+	for _, t := range fr.modifiesTargets(ctx, m) {
+		hs = append(hs, t.heap)
+	}
+	return hs
+}
+
+// modifiesTargets maps a modifies entry to (heap, object address) pairs: `x.f` allows writing field f of the
+// object x only; `contents(x)` and `heap:H` allow the whole heap.
+func (fr *FuncRun) modifiesTargets(ctx *EvalCtx, m string) []modTarget {
+	whole := func(hs []string) []modTarget {
+		var out []modTarget
+		for _, h := range hs {
+			out = append(out, modTarget{heap: h})
+		}
+		return out
+	}
+	if strings.HasPrefix(m, "heap:") || strings.HasPrefix(m, "contents(") {
+		return whole(fr.modifiesHeapsOld(ctx, m))
+	}
+	e, err := parseExpr(m)
+	if err != nil || e.Op != "sel" {
+		return whole(fr.modifiesHeapsOld(ctx, m))
+	}
+	ctx.errs = nil
+	base := ctx.eval(e.Args[0])
+	if base.Type == nil {
+		return whole(fr.modifiesHeapsOld(ctx, m))
+	}
+	p, ok := base.Type.Underlying().(*types.Pointer)
+	if !ok {
+		return whole(fr.modifiesHeapsOld(ctx, m))
+	}
+	st, ok := p.Elem().Underlying().(*types.Struct)
+	if !ok {
+		return nil
+	}
+	idx, path := findField(st, e.Name)
+	if idx < 0 || len(path) != 1 {
+		return whole(fr.modifiesHeapsOld(ctx, m))
+	}
+	ft := st.Field(idx).Type()
+	if isStruct(ft) {
+		inner := fr.heapAddrTerm(FieldOf{Base: ObjAddr{Ref: base.T, Elem: p.Elem()}, Idx: idx, Struct: p.Elem()})
+		var out []modTarget
+		fst := ft.Underlying().(*types.Struct)
+		for i := 0; i < fst.NumFields(); i++ {
+			if !isStruct(fst.Field(i).Type()) {
+				out = append(out, modTarget{heap: fr.w.FieldHeap(ft, i), addr: inner})
+			}
+		}
+		return out
+	}
+	return []modTarget{{heap: fr.w.FieldHeap(p.Elem(), idx), addr: base.T}}
+}
+
+func (fr *FuncRun) modifiesHeapsOld(ctx *EvalCtx, m string) []string {
 	w := fr.w
 	if strings.HasPrefix(m, "heap:") {
 		return []string{strings.TrimPrefix(m, "heap:")}
@@ -994,10 +1108,34 @@ func (e *Engine) VerifyFunction(fn *ssa.Function) *FuncResult {
 	// frame (static): heaps written must be covered by modifies
 	if fc != nil && fc.HasMod {
 		allowed := map[string]bool{"Held": true, "ChanSent": true, "ChanRecvd": true, "ChanClosed": true, "ChanCap": true}
+		objLevel := map[string][]string{}
+		wholeLevel := map[string]bool{}
 		for _, m := range fc.Modifies {
-			for _, h := range fr.modifiesHeaps(ctx, m) {
-				allowed[h] = true
+			for _, t := range fr.modifiesTargets(ctx, m) {
+				allowed[t.heap] = true
+				if t.addr == "" {
+					wholeLevel[t.heap] = true
+				} else {
+					objLevel[t.heap] = append(objLevel[t.heap], t.addr)
+				}
 			}
+		}
+		var ohs []string
+		for h := range objLevel {
+			if !wholeLevel[h] && fr.oldHeapWrites[h] {
+				ohs = append(ohs, h)
+			}
+		}
+		sort.Strings(ohs)
+		for _, h := range ohs {
+			// fields of entry-state objects other than the named ones keep their values
+			a := fr.freshName("a")
+			conds := []string{"(oldaddr " + a + ")"}
+			for _, x := range objLevel[h] {
+				conds = append(conds, "(not (= "+a+" "+x+"))")
+			}
+			cond := fmt.Sprintf("(forall ((%s Int)) (=> %s (= (select %s %s) (select %s %s))))", a, and(conds...), fr.heapCur(rs, h), a, fr.heapCur(f.entry, h), a)
+			fr.assertObNoAssume(rs, "frame-object", h, cond, fn.Pos(), "only the objects named in the modifies clause change in "+h)
 		}
 		var bad []string
 		for h := range fr.allWrites.heaps {
